@@ -56,9 +56,8 @@ func (e *Engine) load(st *State, p Ptr, t types.Type) Value {
 	if !ok {
 		panic(unsupported(fmt.Sprintf("indexed pointer into %T", cell)))
 	}
-	if at, ok := t.Underlying().(*types.Array); ok {
-		n := int(at.Len())
-		ew, isB, sg, ok := isScalarElem(at.Elem())
+	if _, ok := t.Underlying().(*types.Array); ok {
+		n, ew, isB, sg, ok := flatArray(t)
 		if !ok || ew != b.EW {
 			panic(unsupported("array view with different element type"))
 		}
@@ -218,8 +217,11 @@ func (e *Engine) indexAddr(st *State, x Value, i *smt.Term, xt, it types.Type) (
 		cell := e.objCell(st, Ptr{Obj: xv.Obj, Path: xv.Path})
 		if _, ok := cell.(BArrV); ok {
 			idx := i
+			if sd := flatStride(at); sd != 1 {
+				idx = c.Mul(i, e.k64(uint64(sd)))
+			}
 			if xv.Idx != nil {
-				idx = c.Add(xv.Idx, i)
+				idx = c.Add(xv.Idx, idx)
 			}
 			return Ptr{Obj: xv.Obj, Path: xv.Path, Idx: idx}, true
 		}
@@ -234,6 +236,21 @@ func (e *Engine) indexVal(st *State, x Value, i *smt.Term, xt, it types.Type) (V
 	i = e.toIdx64(i, it)
 	switch xv := x.(type) {
 	case BArrV:
+		if at, ok := xt.Underlying().(*types.Array); ok {
+			if sd := flatStride(at); sd != 1 {
+				// nested array stored flat: extract the sub-array
+				if !e.check(st, c.Ult(i, e.k64(uint64(at.Len())))) {
+					e.runtimePanic(st, "index out of range")
+					return nil, false
+				}
+				base := c.Mul(i, e.k64(uint64(sd)))
+				arr := c.ConstArr(xv.EW, c.Const(0, xv.EW))
+				for k := 0; k < sd; k++ {
+					arr = c.Store(arr, e.k64(uint64(k)), c.Select(xv.A, c.Add(base, e.k64(uint64(k)))))
+				}
+				return BArrV{A: arr, Len: e.k64(uint64(sd)), EW: xv.EW, Bool: xv.Bool, Signed: xv.Signed}, true
+			}
+		}
 		if !e.check(st, c.Ult(i, xv.Len)) {
 			e.runtimePanic(st, "index out of range")
 			return nil, false
